@@ -33,7 +33,7 @@ tvars == <<vars, l, addr, val, fl>>
 E == Rec[l]
 Is(e) == l <= Len(Rec) /\ E.ev = e /\ l' = l + 1
 
-FlInit == [get |-> TRUE, next |-> TRUE, bor |-> TRUE, same |-> TRUE, env |-> TRUE]
+FlInit == [reg |-> TRUE, get |-> TRUE, next |-> TRUE, bor |-> TRUE, same |-> TRUE, env |-> TRUE]
 Bump(t, v) == (3 * v + t) % 1009
 
 TInit ==
@@ -56,7 +56,9 @@ TrReg ==
   /\ Is("reg")
   /\ tab' = RegisterEff(tab, E.t)
   /\ first' = IF E.t \in Range(first) THEN first ELSE Append(first, E.t)
-  /\ fl' = [fl EXCEPT !.env = @ /\ DOMAIN iters = {} /\ E.out = "ok"]
+  \* register is a META-TABLE call: Meta's Register always succeeds, any other outcome (a panic of
+  \* whatever kind) is a C17 flag.  Only the harness discipline "no live iterator" is environment.
+  /\ fl' = [fl EXCEPT !.reg = @ /\ E.out = "ok", !.env = @ /\ DOMAIN iters = {}]
   /\ UNCHANGED <<present, guards, iters, addr, val>> /\ Same
 
 TrIns ==
@@ -114,8 +116,9 @@ TrGet ==
 
 TrIter ==
   /\ Is("iter")
-  /\ iters' = Ext(iters, E.h, [k |-> E.k, pos |-> 1, y |-> <<>>])
-  /\ fl' = [fl EXCEPT !.bor = @ /\ BorOK(present, guards)]
+  /\ iters' = IF E.out = "ok" THEN Ext(iters, E.h, [k |-> E.k, pos |-> 1, y |-> <<>>]) ELSE iters
+  \* MetaTable::iter / iter_mut only build the iterator: anything but "ok" is unexplained
+  /\ fl' = [fl EXCEPT !.next = @ /\ E.out = "ok", !.bor = @ /\ BorOK(present, guards)]
   /\ UNCHANGED <<tab, present, guards, first, addr, val>> /\ Same
 
 TrNext ==
@@ -157,11 +160,15 @@ TNext == TrReset \/ TrReg \/ TrIns \/ TrRem \/ TrFetch \/ TrDrop \/ TrGet \/ TrI
 Spec == TInit /\ [][TNext]_tvars
 
 \* ---- property invariants ------------------------------------------------------
+InvC17TrReg == fl.reg          \* register: never anything but ok (Meta!Register has no other outcome)
 InvC17TrGet == fl.get          \* get/get_mut: Some iff registered, same object, own vtable, bad cast => panic
 InvC17TrNext == fl.next        \* iteration: first-registration order, once each, present only, borrow/cast panics
 InvC17TrBorrow == fl.bor       \* probed borrow table = shared for iter items, exclusive for iter_mut items
 InvC17TrVal == fl.same          \* values seen/changed through trait objects and typed guards agree
-InvEnv == fl.env               \* the World itself behaved (not a C17 verdict)
+\* Only plain World calls of the harness that set the scene (insert / remove / typed fetch) and the
+\* harness discipline can clear `env`; every outcome of a meta-table call (register, get, get_mut,
+\* iter, iter_mut, next, drops of their items) that Meta cannot explain clears a C17 flag above.
+InvEnv == fl.env
 
 Accepted ==
   IF TLCGet("stats").diameter = Len(Rec) + 1 THEN TRUE
